@@ -110,6 +110,7 @@ func allSpecs() []Spec {
 		Spec{Kind: "traceql", Q: `{.a="b" || .c!="d"}`, Limit: 10},
 		Spec{Kind: "traceql", Q: `{.a=~"b.*" && (.c>5 || .d<=1.5)}`, Limit: 10},
 		Spec{Kind: "traceql", Q: `{duration>1s && name="x"}`, Limit: 10},
+		Spec{Kind: "traceql", Q: `{.status=200 && .size>"5"}`, Limit: 10}, // number / quoted-number comparisons
 		Spec{Kind: "traceql", Q: `{.a="b"} | count() > 2`, Limit: 10},
 		Spec{Kind: "traceql", Q: `{.a="b"} | avg(duration) > 1s`, Limit: 10},
 		Spec{Kind: "traceql", Q: `{.a="b"} | max(.x) >= 3`, Limit: 10, Cluster: true},
